@@ -761,7 +761,7 @@ def run(chk, ctx):
     for name in configs:
         run_config(chk, ctx, name)
         ots_key_binding(chk, ctx.facts(name), "" if name == "default" else "[%s]" % name)
-    chk.floor("counter_write_sites", 5)
+    chk.floor("counter_write_sites", 3)
     chk.floor("decomposition_uses", 2)
     chk.floor("key_counter_assignments", 2)
     chk.floor("child_components", 2)
